@@ -639,4 +639,393 @@ theorem tickStepper_R {X Y} (P : Prog) (hP : AwDistinct P) (c : Cfg) (h : R X Y 
     · exact h
   · exact h
 
+/-! ### `G` under the other events -/
+
+theorem countP_fst_le_one (l : List (Nat × Nat)) (g : Nat) (h : DistinctF l) : l.countP (·.1 = g) ≤ 1 := by
+  unfold DistinctF at h
+  induction l with
+  | nil => simp
+  | cons p rest ih =>
+    rw [List.map_cons, List.nodup_cons] at h
+    rw [List.countP_cons]
+    by_cases hp : p.1 = g
+    · have : rest.countP (·.1 = g) = 0 := by
+        rw [List.countP_eq_zero]
+        intro a ha hg
+        apply h.1
+        rw [List.mem_map]
+        exact ⟨a, ha, by rw [hp]; simpa using hg⟩
+      simp [hp, this]
+    · have := ih h.2
+      simp [hp]; exact this
+
+/-- dict semantics: a future is registered under one key -/
+theorem distinct_key_unique (l : List (Nat × Nat)) (h : DistinctF l) (g k1 k2 : Nat)
+    (h1 : (g, k1) ∈ l) (h2 : (g, k2) ∈ l) : k1 = k2 := by
+  unfold DistinctF at h
+  induction l with
+  | nil => cases h1
+  | cons p rest ih =>
+    rw [List.map_cons, List.nodup_cons] at h
+    rw [List.mem_cons] at h1 h2
+    rcases h1 with h1 | h1 <;> rcases h2 with h2 | h2
+    · rw [← h1] at h2; cases h2; rfl
+    · exfalso; apply h.1; rw [List.mem_map]; exact ⟨(g, k2), h2, by rw [← h1]⟩
+    · exfalso; apply h.1; rw [List.mem_map]; exact ⟨(g, k1), h1, by rw [← h2]⟩
+    · exact ih h.2 h1 h2
+
+theorem distinctF_filter (l : List (Nat × Nat)) (p : Nat × Nat → Bool) (h : DistinctF l) : DistinctF (l.filter p) :=
+  List.Nodup.sublist (List.Sublist.map _ List.filter_sublist) h
+
+theorem deliver_g (c : Cfg) (o : WF) :
+    terminal (deliver c o).st.label = terminal c.st.label ∧ awOf (deliver c o).st = awOf c.st ∧
+    (deliver c o).ready = c.ready ∧ (deliver c o).efCb = c.efCb ∧ (deliver c o).efs = c.efs ∧ (deliver c o).pc = c.pc ∧
+    (deliver c o).ctx = c.ctx := by
+  unfold deliver
+  split
+  · rename_i fn wf wk aw hst
+    split
+    · exact ⟨rfl, rfl, rfl, rfl, rfl, rfl, rfl⟩
+    · split
+      · exact ⟨by simp [hst, SObj.label], by simp [hst, awOf], rfl, rfl, rfl, rfl, rfl⟩
+      · exact ⟨rfl, rfl, rfl, rfl, rfl, rfl, rfl⟩
+    · exact ⟨rfl, rfl, rfl, rfl, rfl, rfl, rfl⟩
+  · exact ⟨rfl, rfl, rfl, rfl, rfl, rfl, rfl⟩
+
+theorem deliver_G (c : Cfg) (o : WF) (h : G c) : G (deliver c o) := by
+  obtain ⟨a, b, d, e, f, g, _⟩ := deliver_g c o
+  exact h.congr a b d e f (Or.inl g)
+
+theorem interruptState_bf (c : Cfg) (k : Nat) : BF c (interruptState c k) := by
+  unfold interruptState; split
+  · split <;> exact ⟨rfl, rfl, rfl, rfl, rfl, Or.inl rfl⟩
+  · exact BF.rfl' c
+
+theorem requestInterrupt_bf (c : Cfg) (k : AKind) : BF c (requestInterrupt c k) := by
+  unfold requestInterrupt
+  exact BF.trans (BF.trans (⟨rfl, rfl, rfl, rfl, rfl, Or.inl rfl⟩ : BF c { c with nextCookie := c.nextCookie + 1 })
+    (setInterruptFromExc_bf ..)) (interruptState_bf ..)
+
+/-- `pause()` changes nothing the workchain invariants look at -/
+theorem pause_bf (c : Cfg) : BF c (pause c).1 := by
+  unfold pause
+  split
+  · exact BF.rfl' c
+  · split
+    · exact BF.rfl' c
+    · split
+      · exact hand_bf ..
+      · split
+        · exact BF.rfl' c
+        · split
+          · dsimp only
+            have h1 : BF c { requestInterrupt c .pause with pausing := (requestInterrupt c .pause).interrupt } :=
+              BF.trans (requestInterrupt_bf c .pause) ⟨rfl, rfl, rfl, rfl, rfl, Or.inl rfl⟩
+            split
+            · exact BF.trans h1 (hand_bf ..)
+            · exact h1
+          · exact doPauseHooks_bf c
+
+theorem play_bf (c : Cfg) : BF c (play c).1 := by
+  unfold play
+  split
+  · split
+    · exact BF.trans (cancelAction_bf ..) ⟨rfl, rfl, rfl, rfl, rfl, Or.inl rfl⟩
+    · exact BF.rfl' c
+  · dsimp only; split <;> exact ⟨rfl, rfl, rfl, rfl, rfl, Or.inl rfl⟩
+
+/-- `kill()` defers (nothing the workchain invariants look at changes) or is the transition to KILLED -/
+theorem kill_cases (c : Cfg) : BF c (kill c).1 ∨ (kill c).1 = transitionTo c .killed := by
+  unfold kill
+  split
+  · exact Or.inl (BF.rfl' c)
+  · split
+    · exact Or.inl (BF.rfl' c)
+    · split
+      · exact Or.inl (hand_bf ..)
+      · split
+        · dsimp only
+          have h1 : BF c { requestInterrupt c .kill with killing := (requestInterrupt c .kill).interrupt } :=
+            BF.trans (requestInterrupt_bf c .kill) ⟨rfl, rfl, rfl, rfl, rfl, Or.inl rfl⟩
+          split
+          · exact Or.inl (BF.trans h1 (hand_bf ..))
+          · exact Or.inl h1
+        · exact Or.inr rfl
+
+theorem terminal_killed : terminal SObj.killed.label = true := by simp [SObj.label, terminal, allowed]
+
+theorem kill_G (c : Cfg) (h : G c) : G (kill c).1 := by
+  rcases kill_cases c with f | e
+  · exact h.bf f
+  · rw [e]; exact transitionTo_G c _ h (Or.inl terminal_killed)
+
+theorem fail_G (c : Cfg) (e) (h : G c) : G (fail c e).1 := by
+  unfold fail; split
+  · exact h
+  · exact transitionTo_G c _ h (Or.inl (terminal_excepted e))
+
+theorem G.eraseReady {c : Cfg} (h : G c) (cb : Cb) : G { c with ready := c.ready.erase cb } := by
+  refine ⟨?_, h.nd, ?_, h.pcd⟩
+  · intro hl f
+    have := h.ns hl f
+    have h2 : (c.ready.erase cb).count (Cb.adone f) ≤ c.ready.count (Cb.adone f) := List.Sublist.count_le _ List.erase_sublist
+    show (c.ready.erase cb).count (Cb.adone f) + c.efCb.count f ≤ (awOf c.st).countP (·.1 = f)
+    omega
+  · intro g hg; exact h.rd g (List.mem_of_mem_erase hg)
+
+/-- the done-callback of `g` runs: `g` leaves the awaiting set, and no callback for `g` is left behind -/
+theorem tickCb_adone_G (c : Cfg) (g : Nat) (h : G c) : G (tickCb c (.adone g)) := by
+  unfold tickCb
+  split
+  · rename_i hcont
+    have hmem : Cb.adone g ∈ c.ready := List.contains_iff_mem.mp hcont
+    have h1 := h.eraseReady (.adone g)
+    dsimp only
+    unfold awaitableDone
+    have hold : ∀ d : Cfg, G d → G (match d.efKeys.find? (·.1 = g), d.efs[g]? with
+        | some (_, key), some (EFut.result v) => { d with ctx := (key, v) :: d.ctx.filter (·.1 ≠ key) }
+        | _, _ => d) := by
+      intro d hd; split
+      · exact hd.congr rfl rfl rfl rfl rfl (Or.inl rfl)
+      · exact hd
+    dsimp only
+    split
+    · rename_i fn wf wk aw hst
+      have hst' : c.st = .waiting fn wf wk aw := hst
+      split
+      · exact hold _ h1
+      · rename_i g' key hfind
+        -- the configuration in which `g` has left the awaiting set
+        have h3 : G { ({ c with ready := c.ready.erase (Cb.adone g) } : Cfg) with
+            st := .waiting fn wf wk (aw.filter (·.1 ≠ g)) } := by
+          have hlive : terminal c.st.label = false := by rw [hst']; simp [SObj.label, terminal, allowed]
+          have hnd : DistinctF aw := by have := h.nd; rw [hst'] at this; exact this
+          refine ⟨?_, ?_, h1.rd, h1.pcd⟩
+          · intro _ f
+            have hns := h.ns hlive f
+            rw [hst'] at hns
+            show (c.ready.erase (Cb.adone g)).count (Cb.adone f) + c.efCb.count f ≤ (aw.filter (·.1 ≠ g)).countP (·.1 = f)
+            by_cases hfg : f = g
+            · subst hfg
+              have hle := countP_fst_le_one aw f hnd
+              have hpos : 0 < c.ready.count (Cb.adone f) := List.count_pos_iff.mpr hmem
+              rw [List.count_erase_self]
+              have hns' : c.ready.count (Cb.adone f) + c.efCb.count f ≤ aw.countP (·.1 = f) := hns
+              omega
+            · have hne : Cb.adone f ≠ Cb.adone g := by intro hh; cases hh; exact hfg rfl
+              rw [List.count_erase_of_ne hne, List.countP_filter]
+              have : (aw.countP fun a => decide (a.1 = f) && decide (a.1 ≠ g)) = aw.countP (·.1 = f) := by
+                congr 1; funext a
+                by_cases ha : a.1 = f
+                · simp [ha, hfg]
+                · simp [ha]
+              rw [this]; exact hns
+          · exact distinctF_filter aw _ hnd
+        split
+        · split
+          · exact deliver_G _ _ (h3.congr rfl rfl rfl rfl rfl (Or.inl rfl))
+          · exact h3.congr rfl rfl rfl rfl rfl (Or.inl rfl)
+        · exact deliver_G _ _ h3
+        · exact h3
+    · exact hold _ h1
+  · exact h
+
+theorem tickCb_G (c : Cfg) (cb : Cb) (h : G c) : G (tickCb c cb) := by
+  cases cb with
+  | adone g => exact tickCb_adone_G c g h
+  | trykill =>
+    unfold tickCb; split
+    · exact (kill_G _ (h.eraseReady _)).congr rfl rfl rfl rfl rfl (Or.inl rfl)
+    · exact h
+  | usercb r =>
+    unfold tickCb; split
+    · dsimp only
+      split
+      · exact fail_G _ _ (h.eraseReady _)
+      · exact h.eraseReady _
+    · exact h
+
+theorem G.addReady {c : Cfg} (h : G c) (cb : Cb) (hcb : ∀ g, cb ≠ .adone g) : G { c with ready := c.ready ++ [cb] } := by
+  refine ⟨?_, h.nd, ?_, h.pcd⟩
+  · intro hl f
+    have := h.ns hl f
+    show (c.ready ++ [cb]).count (Cb.adone f) + c.efCb.count f ≤ (awOf c.st).countP (·.1 = f)
+    rw [List.count_append, List.count_singleton]
+    have : (if (cb == Cb.adone f) = true then 1 else 0) = 0 := by
+      rw [if_neg]; simpa using hcb f
+    rw [this]
+    omega
+  · intro g hg
+    have hg' : Cb.adone g ∈ c.ready ++ [cb] := hg
+    rw [List.mem_append, List.mem_singleton] at hg'
+    rcases hg' with hg' | hg'
+    · exact h.rd g hg'
+    · exact absurd hg'.symm (hcb g)
+
+theorem cancelFut_G (c : Cfg) (h : G c) : G (cancelFut c).1 := by
+  unfold cancelFut; split
+  · dsimp only
+    split
+    · exact (h.addReady .trykill (by intro g hg; cases hg)).congr rfl rfl rfl rfl rfl (Or.inl rfl)
+    · exact h.congr rfl rfl rfl rfl rfl (Or.inl rfl)
+  · exact h
+
+/-- completing an awaitable with an outcome moves its registered callback to the scheduled ones -/
+theorem complete_G (c : Cfg) (f : Nat) (o : EFut) (ho : o ≠ .pending) (h : G c) : G (complete c f o) := by
+  unfold complete
+  split
+  · rename_i hp
+    have hlt : f < c.efs.length := (List.getElem?_eq_some_iff.mp hp).1
+    have hrd : ∀ (d : Cfg), d.efs = setAt c.efs f o → (∀ g, Cb.adone g ∈ d.ready → Cb.adone g ∈ c.ready ∨ g = f) → ReadyDone d := by
+      intro d he hr g hg
+      rw [he]
+      rcases hr g hg with hg' | rfl
+      · obtain ⟨o', ho', hne⟩ := h.rd g hg'
+        by_cases hgf : f = g
+        · subst hgf; rw [hp] at ho'; cases ho'; exact absurd rfl hne
+        · exact ⟨o', by simpa [setAt, List.getElem?_set, hgf] using ho', hne⟩
+      · exact ⟨o, by simp [setAt, hlt], ho⟩
+    dsimp only
+    split
+    · rename_i hc
+      have hmem : f ∈ c.efCb := List.contains_iff_mem.mp hc
+      refine ⟨?_, h.nd, ?_, h.pcd⟩
+      · intro hl f'
+        have hns := h.ns hl f'
+        show (c.ready ++ [Cb.adone f]).count (Cb.adone f') + (c.efCb.erase f).count f' ≤ (awOf c.st).countP (·.1 = f')
+        rw [List.count_append, List.count_singleton]
+        by_cases hff : f' = f
+        · subst hff
+          have hpos : 0 < c.efCb.count f' := List.count_pos_iff.mpr hmem
+          rw [List.count_erase_self]
+          simp only [beq_self_eq_true, if_true]
+          omega
+        · have hne : (if (Cb.adone f == Cb.adone f') = true then 1 else 0) = 0 := by
+            rw [if_neg]; simp; exact fun hh => hff hh.symm
+          rw [List.count_erase_of_ne hff, hne]
+          omega
+      · refine hrd _ rfl ?_
+        intro g hg
+        have hg' : Cb.adone g ∈ c.ready ++ [Cb.adone f] := hg
+        rw [List.mem_append, List.mem_singleton] at hg'
+        rcases hg' with hg' | hg'
+        · exact Or.inl hg'
+        · cases hg'; exact Or.inr rfl
+    · exact ⟨h.ns, h.nd, hrd _ rfl (fun g hg => Or.inl hg), h.pcd⟩
+  · exact h
+
+/-! ### well-formed histories for the barrier -/
+
+/-- an event that respects the barrier's protocol: a `resume()` only while the current state awaits nothing, and an
+awaitable is completed with an outcome (not with "pending") -/
+def evOk (c : Cfg) : Ev → Bool
+  | .resume _ => (awOf c.st).isEmpty
+  | .complete _ .pending => false
+  | _ => true
+
+/-- every event of the history (started at `c`) respects the barrier's protocol -/
+def histOk (P : Prog) : Cfg → List Ev → Bool
+  | _, [] => true
+  | c, e :: es => evOk c e && histOk P (step P c e).1 es
+
+theorem histOk_append (P : Prog) (c0 : Cfg) (es1 es2 : List Ev) :
+    histOk P c0 (es1 ++ es2) = (histOk P c0 es1 && histOk P (run P c0 es1) es2) := by
+  induction es1 generalizing c0 with
+  | nil => simp [histOk, run]
+  | cons e es ih =>
+    simp only [List.cons_append, histOk, ih, Bool.and_assoc]
+    rfl
+
+/-- a history without `resume()` whose completions carry an outcome is well formed -/
+theorem histOk_of_no_resume (P : Prog) (c0 : Cfg) (evs : List Ev) (hnr : ∀ e ∈ evs, ∀ v, e ≠ .resume v)
+    (hnp : ∀ e ∈ evs, ∀ f, e ≠ .complete f .pending) : histOk P c0 evs = true := by
+  induction evs generalizing c0 with
+  | nil => rfl
+  | cons e es ih =>
+    unfold histOk
+    rw [Bool.and_eq_true]
+    refine ⟨?_, ih _ (fun e' he' => hnr e' (by simp [he'])) (fun e' he' => hnp e' (by simp [he']))⟩
+    cases e with
+    | resume v => exact absurd rfl (hnr _ (by simp) v)
+    | complete f o => cases o <;> first | rfl | exact absurd rfl (hnp _ (by simp) f)
+    | _ => rfl
+
+/-- every well-formed event keeps the barrier invariant `InvB` (a `resume()` while nothing is awaited is harmless) -/
+theorem step_invB_ok (P : Prog) (c : Cfg) (ev : Ev) (h : InvB c) (hok : evOk c ev = true) : InvB (step P c ev).1 := by
+  cases ev with
+  | resume v =>
+    simp only [step]
+    unfold resume
+    split
+    · rename_i fn wf wk aw hst
+      refine deliver_invB c _ h ?_
+      intro _ fn' wf' wk' aw' hst'
+      rw [hst] at hst'; cases hst'
+      have : (awOf c.st).isEmpty = true := hok
+      rw [hst] at this
+      exact List.isEmpty_iff.mp this
+    · exact h
+  | tick => exact step_invB P c _ h (by intro v hv; cases hv)
+  | tickCb cb => exact step_invB P c _ h (by intro v hv; cases hv)
+  | pause => exact step_invB P c _ h (by intro v hv; cases hv)
+  | play => exact step_invB P c _ h (by intro v hv; cases hv)
+  | kill => exact step_invB P c _ h (by intro v hv; cases hv)
+  | fail e => exact step_invB P c _ h (by intro v hv; cases hv)
+  | cancelFut => exact step_invB P c _ h (by intro v hv; cases hv)
+  | complete f o => exact step_invB P c _ h (by intro v hv; cases hv)
+  | callSoon r => exact step_invB P c _ h (by intro v hv; cases hv)
+
+theorem run_invB_ok (P : Prog) (c0 : Cfg) (evs : List Ev) (h : InvB c0) (hok : histOk P c0 evs = true) :
+    InvB (run P c0 evs) := by
+  induction evs generalizing c0 with
+  | nil => exact h
+  | cons e es ih =>
+    unfold histOk at hok
+    rw [Bool.and_eq_true] at hok
+    exact ih _ (step_invB_ok P c0 e h hok.1) hok.2
+
+/-! ### everything that holds in a reachable configuration -/
+
+/-- what holds in every configuration reached by a well-formed history in which no callback runs out of fuel -/
+structure Reach (c : Cfg) : Prop where
+  coh : Coh c
+  invB : InvB c
+  g : G c
+
+theorem reach_init (nf : Nat) : Reach (init nf) := ⟨coh_init nf, invB_init nf, g_init nf⟩
+
+theorem step_G (P : Prog) (hP : AwDistinct P) (c : Cfg) (ev : Ev) (h : Reach c) (hok : evOk c ev = true) :
+    G (step P c ev).1 := by
+  cases ev with
+  | tick => exact (tickStepper_R P hP c ⟨h.g, rfl, rfl⟩ h.invB h.coh).g
+  | tickCb cb => exact tickCb_G c cb h.g
+  | pause => exact h.g.bf (pause_bf c)
+  | play => exact h.g.bf (play_bf c)
+  | kill => exact kill_G c h.g
+  | resume v =>
+    simp only [step]
+    unfold resume; split
+    · exact deliver_G c _ h.g
+    · exact h.g
+  | fail e => exact fail_G c e h.g
+  | cancelFut => exact cancelFut_G c h.g
+  | complete f o =>
+    refine complete_G c f o ?_ h.g
+    intro ho; subst ho; simp [evOk] at hok
+  | callSoon r => exact h.g.addReady _ (by intro g hg; cases hg)
+
+theorem step_reach (P : Prog) (hP : AwDistinct P) (c : Cfg) (ev : Ev) (h : Reach c)
+    (hf : ev = .tick → tickFuelOk P c = true) (hok : evOk c ev = true) : Reach (step P c ev).1 :=
+  ⟨step_coh P c ev h.coh hf, step_invB_ok P c ev h.invB hok, step_G P hP c ev h hok⟩
+
+theorem run_reach (P : Prog) (hP : AwDistinct P) (c0 : Cfg) (evs : List Ev) (h : Reach c0)
+    (hf : histFuelOk P c0 evs = true) (hok : histOk P c0 evs = true) : Reach (run P c0 evs) := by
+  induction evs generalizing c0 with
+  | nil => exact h
+  | cons e es ih =>
+    unfold histFuelOk at hf
+    unfold histOk at hok
+    rw [Bool.and_eq_true] at hf hok
+    exact ih _ (step_reach P hP c0 e h (by intro he; subst he; exact hf.1) hok.1) hf.2 hok.2
+
 end PMF.B10
